@@ -31,8 +31,11 @@ def sc_mixed(params, obs, save):
             h = pool.apply_async(tasks.t_value, (tag, 20), **kw)
         elif k == 'termjob':
             h = pool.apply_async(tasks.t_value, (tag, 20), **kw)
-            if _wait_for(lambda: h.accepted() and h.worker_pids(), 15):
+            issued = False
+            if _wait_for(lambda: (h.accepted() and h.worker_pids()) or h.ready(), 15) \
+                    and not h.ready():
                 pool.terminate_job(h.worker_pids()[0])
+                issued = True
         else:
             items = [['%s.%d' % (tag, i), j['dur'] / 3] for i in range(j['n'])]
             if k == 'map':
@@ -43,6 +46,7 @@ def sc_mixed(params, obs, save):
             else:
                 h = pool.imap_unordered(_star_value, items, 1, lost_worker_timeout=1.0)
         recs.append({'k': k, 'tag': tag, 'n': j['n'], 'h': h, 'cb': cb,
+                     'term_issued': issued if k == 'termjob' else None,
                      'jid': getattr(h, '_job', None)})
     deadline = time.monotonic() + 60
     for rj in recs:
